@@ -292,7 +292,7 @@ func TestDrawnNames(t *testing.T) {
 		}
 		// an origin registered AFTER the issuer has already evaluated requests is served like any other
 		late := mk("lateName", gen.UniformRange(t, 0, 70, "lateLen"))
-		if late != name && iss.OriginIndexKey(late) == nil {
+		if late != name { // (the issuer knows only `name` so far; the harness keeps its own record)
 			if err := iss.AddOrigin(late); err != nil {
 				t.Fatalf("harness: %v", err)
 			}
